@@ -257,7 +257,7 @@ def rule_sparse_dense(chk, prog):
   for cs in set(cums):
     op = cs.a[1][0]
     chk.check(alg.equal(A.conv(op), th * d), rule, f'{site}[sparse]: {util.callee_name(cs)} sums divergence · layer_thickness', sym.show(op)[:120], cs.loc or loc, 'layer_thickness * divergence', sym.show(op)[:120])
-    kw = dict(cs.a[2])
+    kw = util.call_kwargs(cs)
     chk.check(kw.get('axis', cs.a[1][1] if len(cs.a[1]) > 1 else None) == sym.const(0) and kw.get('sharding') == S('sharding'), rule,
               f'{site}[sparse]: {util.callee_name(cs)} runs along the level axis with the given sharding', str({k: sym.show(v_) for k, v_ in kw.items()}), cs.loc or loc)
   # row-factor vectors: up = [0, W[1:,0]/Δσ[0]], down = [W[:-1,-1]/Δσ[-1], 0], diag = diag(W), W = −H
